@@ -1,0 +1,30 @@
+//go:build verif
+
+package layer
+
+import (
+	"time"
+
+	"github.com/containerd/stargz-snapshotter/fs/reader"
+	"github.com/containerd/stargz-snapshotter/fs/remote"
+	"github.com/containerd/stargz-snapshotter/task"
+	digest "github.com/opencontainers/go-digest"
+	ocispec "github.com/opencontainers/image-spec/specs-go/v1"
+)
+
+// Verification hook (build tag "verif" only) for property C13: build a layer object the way Resolver.Resolve
+// does (no FUSE, no registry) around a given blob and a given background task manager, so that the real
+// Prefetch / BackgroundFetch (the callers of the task manager) can be driven. No behaviour change.
+func VerifNewLayerC13(vr *reader.VerifiableReader, blob remote.Blob, dgst digest.Digest, tm *task.BackgroundTaskManager) Layer {
+	return &layerRef{newLayer(
+		&Resolver{
+			prefetchTimeout:       time.Second,
+			backgroundTaskManager: tm,
+		},
+		ocispec.Descriptor{Digest: dgst},
+		&blobRef{blob, func(bool) {}},
+		vr,
+		passThroughConfig{},
+		false,
+	), func(bool) {}}
+}
